@@ -26,6 +26,7 @@ PROGRAMS = [
     "let words = 'the quick brown fox jumps over the lazy dog'.split(' ').to_array(); let c = mapping<str>().update_counter(words.to_generator()); let l = words.map(len{str}).to_array();",
     "fn r(n: int)->Sequence<int>{ if(n <= 0, [], r(n - 1).push(n)) }\nlet x = r(25); let y = x.reverse().to_array();",
     "let s = set((x: int)->{x % 4}, (a: int, b: int)->{a == b}).update(range(50).to_array()); let s1 = s.remove(7); let m = mapping((x: int)->{x % 3}, (a: int, b: int)->{a == b}).update(range(40).map((x: int)->{(x, x * x)}).to_array()); let m1 = m.discard(5); let sc = set((x: int)->{0}, (a: int, b: int)->{a == b}).update(range(30).to_array());",
+    "let big = 2 ** 8000; let bigs = range(20).map((i: int)->{ 2 ** 4000 + i }).to_array(); let f5 = factorial(500); let ngt = 0 - 3 ** 3000; let prod = big * f5;",
     "let st = range(40).to_array().to_stack(); let st2 = st.push(1).push(2); let sq = (range(20).to_array() + range(30).to_array()); let z = zip(range(25).to_array(), range(25).to_array()).to_array();",
     "let o = some('text' * 10); let p = o.map((s: str)->{s.len()}); let q = none() || 5; let r = [some(1), none(), some(3)];",
 ]
